@@ -254,7 +254,8 @@ def main(run):
     for kind in (() if replay_only else ("real", "rfc")):
         for sty in G.STYLES:
             for fates in G.exhaustive_fates(nfate, 1500):
-                exe.append((G.exe_line(kind, [(sty, 1, 0)], fates, seed=3), "exhaustive-" + kind, True))
+                exe.append((G.exe_line(kind, [(sty, 1, 0)], fates, seed=3, nstart=16 if len(exe) % 2 else 0),
+                            "exhaustive-" + kind, True))
     if not quick and not replay_only:
         for kind in ("real", "rfc"):
             for sty in (1, 3):
@@ -269,7 +270,7 @@ def main(run):
         exe.append((G.exe_line(kind, reqs, fates, seed=r.randrange(1, 1 << 30),
                                cmid0=r.choice([100, 65533, 41527, 41528, 41529]),
                                adelay=r.choice([1, 300, 1200, 2500, 4000]),
-                               dflt=r.choice([0, 3, 40, 900]), nstart=r.choice([0, 0, 4])),
+                               dflt=r.choice([0, 3, 40, 900]), nstart=r.choice([0, 16, 16])),
                     "random-" + kind, True))
 
     # ------------------------------------------------------------ message-id wrap (findings C07-F5a/b)
@@ -340,6 +341,33 @@ def main(run):
         replay.append(G.exc_line([s[0] for s in p["steps"]], mid0=cmid0))
         items.append({"case": ln, "steps": p["steps"], "parsed": p, "kind": "exe-" + kind})
     om, _ = vlib.run_lines_robust(model, replay)
+    # the real server's steps replayed on the abstract server of System.v (no request
+    # de-duplication = what a libcoap server with these handlers does); only for runs in which the
+    # server's NSTART is raised, the abstract server does not hold responses back
+    srv_lines, srv_idx = [], []
+    for i, it in enumerate(items):
+        if it is None or " K real " not in it["case"] + " ":
+            continue
+        f = it["case"].split()
+        if int(f[f.index("N") + 1]) < 8:
+            continue
+        sv = it["parsed"].get("srv")
+        if sv and sv[0] >= 0 and sv[1]:
+            srv_lines.append("exs 4 %d 0 %s" % (sv[0], sv[1]))
+            srv_idx.append(i)
+    if srv_lines:
+        os_, _ = vlib.run_lines_robust(model, srv_lines)
+        nsd = 0
+        for i, o in zip(srv_idx, os_):
+            run.hist("server_replay", "ok" if o.startswith("ok") else "mismatch")
+            if not o.startswith("ok"):
+                nsd += 1
+                if nsd <= 2:
+                    V.violation("the libcoap server does not behave as the abstract server of the model: " + o[:300],
+                                "correspondence: Exchange.System.ex_srv_rx / ex_srv_fire / ex_srv_timer replayed on the "
+                                "steps observed at the real server\ncase: %s\nserver steps: %s\nresult: %s\n"
+                                % (items[i]["case"], items[i]["parsed"]["srv"], o), "srvtie", no_input=True)
+        run.cov["server_replays"] = len(srv_lines)
     for i, it in enumerate(items):
         if it is None:
             continue
